@@ -126,6 +126,11 @@ class Canon:
         b = self.bindings.get(name)
         if b and len(b) == 1 and b[0][0] == 'assign' and name not in self.params:
             return b[0][1]
+        # bound in several places to the very same expression (the arms of a dispatch written out)
+        if b and len(b) > 1 and all(k == 'assign' for k, _ in b) and name not in self.params:
+            texts = {ast.dump(v) for _, v in b}
+            if len(texts) == 1 and not any(isinstance(x, ast.Name) and x.id == name for x in ast.walk(b[0][1])):
+                return b[0][1]
         return None
 
     def _one(self, name, kind, payload) -> Optional[str]:
